@@ -7,6 +7,7 @@ acyclic paths with one loop unrolling.  A path is a list of events
     ('cond', test, bool)      branch condition with its outcome
     ('iter', fornode)         one element pulled at a for head
     ('loop0', loopnode)       loop left without executing its body
+    ('enter', whilenode)      while loop entered (a for loop is entered by its 'iter')
     ('backedge', loopnode)    end of the unrolled iteration
     ('break', loopnode)
     ('with', withnode)
@@ -57,7 +58,24 @@ class Path(object):
         return out
 
     def literal_srcs(self):
-        return [("" if pol else "not ") + A.src(t) for t, pol in self.literals()]
+        out = []
+        for t, pol in self.literals():
+            s = A.src(t)
+            if not pol:
+                s = "not (%s)" % s if isinstance(t, (ast.BoolOp, ast.Compare, ast.IfExp)) else "not " + s
+            out.append(s)
+        return out
+
+    def cases(self):
+        """Disjunctive normal form of the path condition: a list of cases, each a
+        list of (expr, polarity) atoms (an untaken `a and b` is `not a` or `not b`)."""
+        cases = [[]]
+        for t, pol in self.literals():
+            alts = _alternatives(t, pol)
+            cases = [c + alt for c in cases for alt in alts]
+            if len(cases) > 256:
+                raise AnalysisError("path condition too large")
+        return cases
 
     def index(self, node):
         for i, e in enumerate(self.ev):
@@ -85,6 +103,25 @@ class Path(object):
                 for y in _yields_in(e[1]):
                     out.append((i, y))
         return out
+
+
+def _alternatives(t, pol):
+    """[(expr, pol)] literal -> list of alternative atom lists."""
+    t, p2 = A.strip_not(t)
+    pol = pol if p2 else (not pol)
+    if isinstance(t, ast.BoolOp):
+        conj = (isinstance(t.op, ast.And) and pol) or (isinstance(t.op, ast.Or) and not pol)
+        parts = [_alternatives(v, pol) for v in t.values]
+        if conj:
+            out = [[]]
+            for alts in parts:
+                out = [c + a for c in out for a in alts]
+            return out
+        out = []
+        for alts in parts:
+            out.extend(alts)
+        return out
+    return [[(t, pol)]]
 
 
 def _yields_in(st):
@@ -237,7 +274,8 @@ class Enumerator(object):
                 out.extend(self.seq([z], st.orelse))
         # one iteration
         if isinstance(st, ast.While):
-            one = self.branch(p, st.test, True) if not forever else p.plus(("cond", st.test, True))
+            base = p.plus(("enter", st))
+            one = self.branch(base, st.test, True) if not forever else base.plus(("cond", st.test, True))
         else:
             one = p.plus(("iter", st))
             for nm in A.target_names(st.target):
